@@ -10,6 +10,41 @@ SCOPE = r"^<?(solvers|encodings|dynamics|utils::connected_components_computer|ut
 ALLOWED_BOUNDS = r"^(T|U): (utils::label::LabelType|core::marker::Sized|core::marker::MetaSized|core::clone::Clone|core::cmp::Eq|core::cmp::PartialEq|core::fmt::Debug|core::fmt::Display|core::hash::Hash|'[a-z_]+)$"
 
 
+_TEXT_SINKS = r"(io::Write::write_fmt|fmt::Formatter::write_fmt|core::fmt::Write::write_fmt|panicking::panic_fmt|alloc::fmt::format|anyhow::|log::|fmt::Arguments::)"
+
+
+def _arguments_only_printed(prog, b, cons, depth=0):
+    """the fmt::Arguments value handed to a local function is only written out there (to a writer, an error or the log), possibly
+    through further local functions"""
+    if depth > 4 or cons.info[0] is None:
+        return False
+    tgt = prog.body_for_callee(cons.info[0], b)
+    if tgt is None or tgt.kind == "closure":
+        return False
+    ks = [i + 1 for i, a in enumerate(cons.site.node.get("args") or []) if op_place(a) is not None and i + 1 <= tgt.n_args and tgt.local_ty(i + 1).startswith("core::fmt::Arguments")]
+    if not ks:
+        return False
+    for k in ks:
+        uses = 0
+        for fs in format_sites(tgt):
+            if any(a is not None and any(o.kind == "param" and o.data == k for o in origins(tgt, a[1])) for a in fs.args):
+                uses += 1
+                cs = [c for c in consumers(tgt, fs.result_local) if c.kind == "call" and c.info[0]]
+                if not cs or not all(re.search(_TEXT_SINKS, callee_decl(c.info[0])) or _arguments_only_printed(prog, tgt, c, depth + 1) for c in cs):
+                    return False
+        for c in consumers(tgt, k):
+            if c.kind == "call" and c.info[0]:
+                d = callee_decl(c.info[0])
+                if re.search(r"fmt::rt::Argument", d):
+                    continue
+                uses += 1
+                if not (re.search(_TEXT_SINKS, d) or _arguments_only_printed(prog, tgt, c, depth + 1)):
+                    return False
+        if uses == 0:
+            return False
+    return True
+
+
 def rule_parametricity(ctx):
     prog = ctx.prog
     r = ctx.rule(
@@ -81,7 +116,7 @@ def rule_parametricity(ctx):
             nf += 1
             cs = [c for c in consumers(b, fs.result_local) if c.kind == "call"]
             sinks = {callee_decl(c.info[0]) for c in cs if c.info[0]}
-            ok = bool(sinks) and all(re.search(r"(io::Write::write_fmt|fmt::Formatter::write_fmt|core::fmt::Write::write_fmt|panicking::panic_fmt|alloc::fmt::format|anyhow::|log::|fmt::Arguments::)", x) for x in sinks)
+            ok = bool(sinks) and all(re.search(_TEXT_SINKS, callee_decl(c.info[0])) or _arguments_only_printed(prog, b, c) for c in cs if c.info[0])
             # a formatted String may only become an error / log message
             if ok and "alloc::fmt::format" in sinks:
                 for c in cs:
